@@ -246,7 +246,7 @@ pub fn scenario(cfg: GenCfg) -> BoxedStrategy<Scenario> {
     let client = (endpoint(cfg), prop::collection::vec(stream(cfg), 1..=cfg.max_streams), prop_oneof![Just(None), (0u32..100).prop_map(Some)])
         .prop_map(|(endpoint, streams, close_code)| ClientCfg { endpoint, conn: ConnScript { streams, close_code, datagrams: vec![], server_close: None } });
     (any::<u64>(), endpoint(cfg), prop::collection::vec(client, 1..=cfg.max_clients), net(cfg))
-        .prop_map(move |(seed, server, clients, net)| Scenario { seed, server, clients, net, cap_ms: cfg.cap_ms, strays: vec![], stateless_reset: false, rebinds: vec![], attacks: vec![], evil: None, tp: None, key_update_after: None })
+        .prop_map(move |(seed, server, clients, net)| Scenario { seed, server, clients, net, cap_ms: cfg.cap_ms, strays: vec![], stateless_reset: false, rebinds: vec![], attacks: vec![], evil: None, tp: None, key_update_after: None, tls_aes256: false })
         .boxed()
 }
 
@@ -328,6 +328,7 @@ pub fn single_fault_base(shape: u64) -> Scenario {
         evil: None,
         tp: None,
         key_update_after: None,
+        tls_aes256: false,
     }
 }
 
